@@ -11,13 +11,15 @@
 #include <sys/resource.h>
 #include <sys/wait.h>
 
-struct Faults { int open_fail = -1; int w1 = -1, w2 = -1; int persistent = -1; int lock_fail = -1; };
+struct Faults { int open_fail = -1; int w1 = -1, w2 = -1; int persistent = -1; int lock_fail = -1; int err = 0; /* 0 EIO, 1 ENOSPC, 2 EINTR, 3 EAGAIN */ };
+static const int ERRNOS[4] = { EIO, ENOSPC, EINTR, EAGAIN };
 static std::string faults_str(const Faults& f)
 {
-    char b[128]; snprintf(b, sizeof b, "open_fail=%d,w1=%d,w2=%d,persistent=%d,lock_fail=%d", f.open_fail, f.w1, f.w2, f.persistent, f.lock_fail); return b;
+    char b[160]; snprintf(b, sizeof b, "open_fail=%d,w1=%d,w2=%d,persistent=%d,lock_fail=%d,err=%d", f.open_fail, f.w1, f.w2, f.persistent, f.lock_fail, f.err); return b;
 }
 static const char* KIND_NAME(int k) { switch (k) { case BasicDevice_Storage_Raw: return "raw"; case BasicDevice_Storage_Tiff: return "tiff"; case BasicDevice_Storage_Trash: return "trash"; case BasicDevice_Storage_SideBySideTiffJson: return "tiff-json"; } return "?"; }
 
+static int g_hangs; // after three hangs the errno variants are not enumerated further (each costs its full time-out)
 struct Outcome { char verdict[16]; char clause[64]; char detail[400]; int writes, opens; };
 
 // ops: 's' set, 'r' start, 'a' append (2 frames), 'p' stop; close is implicit at the end
@@ -28,6 +30,7 @@ static void child_run(int kind, const std::string& ops, const Faults& f, Outcome
     ENV = Env();
     ENV.open_fail_at = f.open_fail;
     ENV.lock_fail_at = f.lock_fail;
+    ENV.fail_errno = ERRNOS[f.err & 3];
     ENV.persistent_from = f.persistent;
     int maxw = f.w2 > f.w1 ? f.w2 : f.w1;
     if (maxw >= 0) { ENV.write_plan.assign(maxw + 1, W_FULL); if (f.w1 >= 0) ENV.write_plan[f.w1] = W_EIO; if (f.w2 >= 0) ENV.write_plan[f.w2] = W_EIO; }
@@ -63,7 +66,8 @@ static void child_run(int kind, const std::string& ops, const Faults& f, Outcome
                 int failed_before = ENV.failed_writes;
                 bool was_running = storage_get_state(dev) == DeviceState_Running;
                 DEV(storage_append(dev, (const struct VideoFrame*)buf.data(), (const struct VideoFrame*)((uint8_t*)buf.data() + fa.size() + fb.size())));
-                if (was_running && ENV.failed_writes > failed_before && storage_get_state(dev) == DeviceState_Running)
+                // (an interrupted or would-block write may legitimately be retried: only hard errors must end the run)
+                if (was_running && ENV.failed_writes > failed_before && f.err < 2 && storage_get_state(dev) == DeviceState_Running)
                     fail("write-failure-not-reported", "%s: %d OS write(s) failed during this append, yet the device is still Running when the append returns (the runtime keeps streaming into it)", KIND_NAME(kind), ENV.failed_writes - failed_before);
                 break;
             }
@@ -95,7 +99,7 @@ static Outcome run_forked(int kind, const std::string& ops, const Faults& f)
         struct sigaction sa; memset(&sa, 0, sizeof sa); sa.sa_handler = crash_h; sa.sa_flags = SA_ONSTACK;
         sigaction(SIGSEGV, &sa, nullptr); sigaction(SIGBUS, &sa, nullptr); sigaction(SIGABRT, &sa, nullptr); sigaction(SIGFPE, &sa, nullptr);
         struct rlimit rl = { 4 << 20, 4 << 20 }; setrlimit(RLIMIT_STACK, &rl);
-        alarm(10);
+        alarm(f.err ? 3 : 10);
         Outcome o; child_run(kind, ops, f, &o);
         *sh = o;
         _exit(0);
@@ -104,7 +108,7 @@ static Outcome run_forked(int kind, const std::string& ops, const Faults& f)
     Outcome o = *sh;
     if (!strcmp(o.verdict, "run")) {
         strcpy(o.verdict, "viol");
-        if (WIFSIGNALED(st) && WTERMSIG(st) == SIGALRM) { strcpy(o.clause, "hang"); snprintf(o.detail, sizeof o.detail, "the device call did not return within 10 s"); }
+        if (WIFSIGNALED(st) && WTERMSIG(st) == SIGALRM) { strcpy(o.clause, "hang"); snprintf(o.detail, sizeof o.detail, "the device call did not return within %d s", f.err ? 3 : 10); }
         else { strcpy(o.clause, "crash"); snprintf(o.detail, sizeof o.detail, "child ended with wait status 0x%x", st); }
     }
     return o;
@@ -129,7 +133,7 @@ int main(int argc, char** argv)
         size_t bar = replay.find('|');
         std::string ops = replay.substr(0, bar);
         Faults f;
-        if (bar != std::string::npos) sscanf(replay.c_str() + bar + 1, "open_fail=%d,w1=%d,w2=%d,persistent=%d,lock_fail=%d", &f.open_fail, &f.w1, &f.w2, &f.persistent, &f.lock_fail);
+        if (bar != std::string::npos) sscanf(replay.c_str() + bar + 1, "open_fail=%d,w1=%d,w2=%d,persistent=%d,lock_fail=%d,err=%d", &f.open_fail, &f.w1, &f.w2, &f.persistent, &f.lock_fail, &f.err);
         Outcome o = run_forked(kind, ops, f);
         h_rmtree(g_scratch);
         printf("%s: open;%s;close with %s -> %s %s %s (%d pwrite calls, %d opens)\n", KIND_NAME(kind), ops.c_str(), faults_str(f).c_str(), o.verdict, o.clause, o.detail, o.writes, o.opens);
@@ -164,6 +168,13 @@ int main(int argc, char** argv)
         // creating a file = open + lock: the lock is refused (another process or device holds the file) at the j-th create, or at all
         for (int j = 0; j < O; ++j) { Faults f; f.lock_fail = j; note(ops, f, run_forked(kind, ops, f)); ++with_faults; }
         if (O) { Faults f; f.lock_fail = -2; note(ops, f, run_forked(kind, ops, f)); ++with_faults; }
+        // other errno values the OS may answer with (a full disk, an interrupted or would-block write): transient at k, persistent from k
+        if (ops.size() <= 3 || ops == "srap" || ops == "sraa")
+            for (int k = 0; k < W && g_hangs < 3; ++k)
+                for (int e = 1; e < 4; ++e) {
+                    Faults f; f.w1 = k; f.err = e; Outcome o1 = run_forked(kind, ops, f); note(ops, f, o1); ++with_faults; if (!strcmp(o1.clause, "hang")) ++g_hangs;
+                    Faults g; g.persistent = k; g.err = e; Outcome o2 = run_forked(kind, ops, g); note(ops, g, o2); ++with_faults; if (!strcmp(o2.clause, "hang")) ++g_hangs;
+                }
         for (int k = 0; k < W; ++k) {
             Faults f; f.w1 = k; note(ops, f, run_forked(kind, ops, f)); ++with_faults;
             Faults g; g.persistent = k; note(ops, g, run_forked(kind, ops, g)); ++with_faults;
